@@ -118,6 +118,7 @@ func Run(p *Property, seed int64, tier, outDir, corpusDir, replay string) (*Repo
 
 	rep := &Report{Property: p.ID, Seed: seed, Tier: tier, Rule: p.Rule, Distribution: map[string]int{}, CorpusCases: nCorpus}
 	seen := map[string]bool{}
+	shrunk := map[string]bool{}
 	line := 0
 	for ci, c := range cases {
 		outs, fails, tags, panicked := safeExec(p, c)
@@ -157,9 +158,17 @@ func Run(p *Property, seed int64, tier, outDir, corpusDir, replay string) (*Repo
 			if f.Case == nil {
 				f.Case = c
 			}
-			// minimise on the op list, keeping the same signature
-			f.Case = shrink(p, f.Case, f.Signature)
-			rep.Failures = append(rep.Failures, f)
+			// minimise on the op list, keeping the same signature — once per signature (the first occurrence is the
+			// replay; further occurrences are only counted)
+			if !shrunk[f.Signature] {
+				shrunk[f.Signature] = true
+				if os.Getenv("VERIF_NOSHRINK") == "" {
+					f.Case = shrink(p, f.Case, f.Signature)
+				}
+				rep.Failures = append(rep.Failures, f)
+			} else if len(rep.Failures) < 400 {
+				rep.Failures = append(rep.Failures, f)
+			}
 		}
 	}
 	js, _ := json.MarshalIndent(rep, "", " ")
